@@ -198,7 +198,7 @@ func (fr *Frame) exec(ins ssa.Instruction, st *State) {
 	case *ssa.Alloc:
 		elem := ins.Type().(*types.Pointer).Elem()
 		r := vc.newRef(st, fr.curReach)
-		comp := vc.memComp(elem)
+		comp := vc.allocComp2(ins)
 		vc.set(st, comp, fmt.Sprintf("(store %s %s %s)", vc.get(st, comp), r, vc.zero(elem).S))
 		fr.vals[ins] = Term{r, "Int", ins.Type()}
 		fr.lvals[ins] = &LVal{Comp: comp, Ref: r, T: elem}
@@ -241,6 +241,7 @@ func (fr *Frame) exec(ins ssa.Instruction, st *State) {
 			fr.nilCheck(lv.Ref, ins.Addr.Name(), ins.Pos())
 		}
 		fr.checkGuard(lv, true, ins.Pos())
+		fr.checkElemsAtomic(ins.Addr, true, ins.Pos())
 		vc.storeL(lv, fr.val(ins.Val).S, st)
 	case *ssa.BinOp:
 		fr.execBinOp(ins)
@@ -455,6 +456,7 @@ func (fr *Frame) execUnOp(ins *ssa.UnOp, st *State) {
 			fr.nilCheck(lv.Ref, ins.X.Name(), ins.Pos())
 		}
 		fr.checkGuard(lv, false, ins.Pos())
+		fr.checkElemsAtomic(ins.X, false, ins.Pos())
 		if g, ok := ins.X.(*ssa.Global); ok {
 			if t, ok := fr.globalConst(g); ok {
 				fr.vals[ins] = t
